@@ -408,6 +408,7 @@ func __sentAt[T any](ch chan<- T, i int) T       { var z T; return z }
 func __recvN[T any](ch <-chan T) int             { return 0 }
 func __recvAt[T any](ch <-chan T, i int) T       { var z T; return z }
 func __closed[T any](ch chan<- T) bool           { return false }
+func __drained[T any](ch <-chan T) bool { return false }
 func __held(l any) bool                          { return true }
 func __rheld(l any) bool                         { return true }
 func __logN(name string) int                     { return 0 }
@@ -591,7 +592,7 @@ func splitTop(s string, sep byte) []string {
 
 var (
 	oldRe    = regexp.MustCompile(`\bold\(`)
-	forallRe = regexp.MustCompile(`\b(forall|forall2|forall3|exists|exists2|ite|visited|mapAt|mapHas|witness|countRecv|distinctRefs|allocatedRef|sentN|sentAt|recvN|recvAt|closed|held|rheld|fresh|mapEq|sameElems|sameArray|sameSlice|allocatedElemsKept|allocated|arrayAllocated|same|nilSlice|disjoint|elemsUnchangedExcept|elemsUnchangedExcept2|spawnN|spawnArg|spawnIs|callNOf|callRetOf|callResOf\[[A-Za-z0-9_.*\[\]]+\]|callRecvOf\[[A-Za-z0-9_.*\[\]]+\]|callStrOf|libFailN|fileClosed|callArg2Of\[[A-Za-z0-9_.*\[\]]+\]|callArgOf\[[A-Za-z0-9_.*\[\]]+\]|callN|callIs|callRet|decoded\[[A-Za-z0-9_.*\[\]]+\]|decodeOK\[[A-Za-z0-9_.*\[\]]+\]|nextDecoded\[[A-Za-z0-9_.*\[\]]+\]|nextDecodeOK\[[A-Za-z0-9_.*\[\]]+\]|logN|logAt\[[A-Za-z0-9_.*\[\]]+\])\(`)
+	forallRe = regexp.MustCompile(`\b(forall|forall2|forall3|exists|exists2|ite|visited|mapAt|mapHas|witness|countRecv|distinctRefs|allocatedRef|sentN|sentAt|recvN|recvAt|closed|drained|held|rheld|fresh|mapEq|sameElems|sameArray|sameSlice|allocatedElemsKept|allocated|arrayAllocated|same|nilSlice|disjoint|elemsUnchangedExcept|elemsUnchangedExcept2|spawnN|spawnArg|spawnIs|callNOf|callRetOf|callResOf\[[A-Za-z0-9_.*\[\]]+\]|callRecvOf\[[A-Za-z0-9_.*\[\]]+\]|callStrOf|libFailN|fileClosed|callArg2Of\[[A-Za-z0-9_.*\[\]]+\]|callArgOf\[[A-Za-z0-9_.*\[\]]+\]|callN|callIs|callRet|decoded\[[A-Za-z0-9_.*\[\]]+\]|decodeOK\[[A-Za-z0-9_.*\[\]]+\]|nextDecoded\[[A-Za-z0-9_.*\[\]]+\]|nextDecodeOK\[[A-Za-z0-9_.*\[\]]+\]|logN|logAt\[[A-Za-z0-9_.*\[\]]+\])\(`)
 	assertRe = regexp.MustCompile(`\bassert\(`)
 )
 
